@@ -56,7 +56,9 @@ def nonconsuming_cycle(m):
 def spin_kind(m):
     """Root-cause class of a spin just raised by m.feed, from the out-of-space redirects it performed."""
     if not m.overflow_log:
-        return "no-overflow"
+        # a cycle that only exists under a data condition (a break inside an action-only if takes part in it): the compile-time check
+        # cannot see it (open finding); every other cycle without an out-of-space redirect should have been rejected
+        return "conditional-break-cycle" if m.cond_break_log else "no-overflow"
     # An out-of-space redirect takes part in the cycle.  Whether the cycle closes through a loop statement's repeat (the open
     # finding: the handler completes and the loop re-enters the append) or not (e.g. a catch block re-entering itself, fixed)
     # is decided on the source by the caller.
